@@ -84,6 +84,10 @@ pub fn c05_rejoin() {
             (Some(p), Some(j)) => if p.state != ValueStatus::Deleted && j.state != ValueStatus::Deleted {
                 vsym::check("resync.value-byte-for-byte", p.value == j.value);
                 vsym::check("resync.version", p.version == j.version);
+                // independent of the recorded defect (the catch-up line has no version field, the receiver takes the first word of the
+                // value for it): what arrives must at least be what that mis-parse predicts - first word dropped
+                let predicted = match p.value.find(" ") { Some(i) => p.value[i + 1..].to_string(), None => String::new() };
+                vsym::check("resync.value-matches-defect-model", j.value == p.value || j.value == predicted);
             },
             _ => {}
         }
